@@ -20,6 +20,7 @@ import (
 	"net"
 	"net/http"
 	"net/url"
+	"reflect"
 	"runtime"
 	"sort"
 	"strconv"
@@ -1009,4 +1010,116 @@ func e2CopyMap(m map[string]any) map[string]any {
 		out[k] = v
 	}
 	return out
+}
+
+// ---------------------------------------------------------------------------
+// config reload on a MockConfig (additive; used by C36)
+
+// ReloadConfig changes node i's MockConfig and notifies the components the way
+// a reload of the file config does: the mutation is made under the mock's
+// write lock while no callback is running, then every registered reload
+// callback is called (from this goroutine, no lock held), except the
+// ConfigWatcher's. MockConfig.Reload itself is not used: the ConfigWatcher's
+// callback publishes "cfg_update", its own subscription answers with
+// Config.Reload(), and MockConfig - unlike the file config, which compares
+// hashes and does nothing - would run all callbacks again from another
+// goroutine at an unknown time (with ConfigReloadInterval 0: forever).
+// Callers must not call ReloadConfig concurrently for one node.
+func (c *e2Cluster) ReloadConfig(i int, mutate func(cfg *config.MockConfig)) {
+	cfg := c.Nodes[i].Cfg
+	cfg.Mux.Lock()
+	mutate(cfg)
+	cfg.Mux.Unlock()
+	cfg.Mux.RLock()
+	cbs := append([]config.ConfigReloadCallback(nil), cfg.Callbacks...)
+	cfg.Mux.RUnlock()
+	for _, cb := range cbs {
+		name := runtime.FuncForPC(reflect.ValueOf(cb).Pointer()).Name()
+		if strings.Contains(name, "configwatcher") {
+			continue
+		}
+		cb("verif-cfg", "verif-rules")
+	}
+}
+
+// ---------------------------------------------------------------------------
+// a request kept in flight (additive; used by C36)
+
+// e2HeldRequest is a POST /1/batch/<dataset> written by hand on a TCP
+// connection: headers and the first half of the body are sent by
+// e2HoldBatch, the rest by Finish.
+type e2HeldRequest struct {
+	conn  net.Conn
+	rest  []byte
+	Spans []e2Span
+}
+
+// HoldBatch opens a connection to node i's incoming listener and sends the
+// request line, the headers and half of the JSON body.
+func (c *e2Cluster) HoldBatch(i int, apiKey, dataset string, spans []e2Span) (*e2HeldRequest, error) {
+	type ev struct {
+		Time       string         `json:"time,omitempty"`
+		SampleRate int            `json:"samplerate,omitempty"`
+		Data       map[string]any `json:"data"`
+	}
+	evs := make([]ev, len(spans))
+	for k, s := range spans {
+		evs[k] = ev{SampleRate: s.SampleRate, Data: s.Data()}
+		if !s.Time.IsZero() {
+			evs[k].Time = s.Time.UTC().Format(time.RFC3339Nano)
+		}
+	}
+	body, err := json.Marshal(evs)
+	if err != nil {
+		return nil, err
+	}
+	addr := c.Nodes[i].HTTPAddr
+	conn, err := net.DialTimeout("tcp", addr, 5*time.Second)
+	if err != nil {
+		return nil, err
+	}
+	head := fmt.Sprintf("POST /1/batch/%s HTTP/1.1\r\nHost: %s\r\nUser-Agent: verif-e2-held\r\nContent-Type: application/json\r\nX-Honeycomb-Team: %s\r\nContent-Length: %d\r\nConnection: close\r\n\r\n",
+		url.PathEscape(dataset), addr, apiKey, len(body))
+	half := len(body) / 2
+	if _, err := conn.Write(append([]byte(head), body[:half]...)); err != nil {
+		conn.Close()
+		return nil, err
+	}
+	return &e2HeldRequest{conn: conn, rest: body[half:], Spans: spans}, nil
+}
+
+// Finish sends the rest of the body and reads the response.
+func (h *e2HeldRequest) Finish() e2PostResult {
+	defer h.conn.Close()
+	h.conn.SetDeadline(time.Now().Add(e2PollBound))
+	if _, err := h.conn.Write(h.rest); err != nil {
+		return e2PostResult{Err: err}
+	}
+	resp, err := http.ReadResponse(bufio.NewReader(h.conn), nil)
+	if err != nil {
+		return e2PostResult{Err: err}
+	}
+	defer resp.Body.Close()
+	b, _ := io.ReadAll(resp.Body)
+	res := e2PostResult{HTTPStatus: resp.StatusCode, Body: string(b)}
+	var sts []struct {
+		Status int `json:"status"`
+	}
+	if json.Unmarshal(b, &sts) == nil {
+		for _, s := range sts {
+			res.Statuses = append(res.Statuses, s.Status)
+		}
+	}
+	return res
+}
+
+// ListenerClosed reports whether node i's incoming listener refuses new
+// connections (http.Server.Shutdown closes the listeners first).
+func (c *e2Cluster) ListenerClosed(i int) bool {
+	conn, err := net.DialTimeout("tcp", c.Nodes[i].HTTPAddr, time.Second)
+	if err != nil {
+		return true
+	}
+	conn.Close()
+	return false
 }
